@@ -208,6 +208,7 @@ class VT:
 
     def __init__(self, w, h, top=0):
         self.w, self.H, self.top = w, top + h, top
+        self._top0 = top
         self.blank = (" ", self.PLAIN)
         self.sentinel = ("#", ("sentinel", "", frozenset()))
         self.grid = [[self.sentinel if y < top else self.blank for _ in range(w)] for y in range(self.H)]
@@ -467,13 +468,11 @@ class VT:
     def owned(self):
         return [row[:] for row in self.grid[self.top:]]
 
-    def rebase(self):
-        """after a done render the cursor row is the new origin"""
-        self.top = self.row
-        self.min_row = self.top
-        self.writes = []
-        for y in range(self.top):
-            self.grid[y] = [self.sentinel for _ in range(self.w)]
+    def fresh(self):
+        """a fresh terminal of the same geometry that keeps the modes (what the next prompt finds)"""
+        v = VT(self.w, self.H - self._top0, self._top0)
+        v.sgr, v.autowrap, v.visible = self.sgr, self.autowrap, self.visible
+        return v
 
 
 def vis(cell):
@@ -736,7 +735,8 @@ def run_case(case, tee):
 def model_lines(case):
     L = header_lines(case)
     extra: dict[str, int] = {}
-    body = []
+    top = 0 if case["fs"] else case.get("top", 0)
+    body = [f"term {top}"]
     plan = grid_plan(case)
     if case["kind"] != "diff":
         body.append("init")
@@ -767,7 +767,7 @@ def model_lines(case):
         if grid:
             body.append("grid")
         if op.get("done") and k in ("render", "diff"):
-            body.append("rebase")
+            body.append(f"term {top}")       # the next prompt starts on a fresh terminal
     # styles that Char() derived itself (control characters): plain in the stub style
     for st, sid in extra.items():
         L.append(f"style {sid} {enc_attrs(mk_attrs(PLAIN))}".replace("/", " "))
@@ -780,9 +780,10 @@ def impl_lines(case):
     plan = grid_plan(case)
     tee = any(plan)
     res = run_case(case, tee=tee)
-    vt = VT(case["W"], case["H"], 0) if tee else None
+    top = 0 if case["fs"] else case.get("top", 0)
+    vt = VT(case["W"], case["H"] - top, top) if tee else None
     sgrmap = sgr_of_attrs(case) if tee else None
-    body = []
+    body = ["ok"]
     if case["kind"] != "diff":
         op, calls, st, data = res.pop(0)
         if vt:
@@ -808,7 +809,7 @@ def impl_lines(case):
             body.append(grid_line(vt, sgrmap))
         if op.get("done") and k in ("render", "diff"):
             if vt:
-                vt.rebase()
+                vt = vt.fresh()
             body.append("ok")
     return out + ["ok"] * len(extra) + body
 
@@ -868,7 +869,7 @@ def expected_cells(js, case, W, H):
 def compare_grid(vt: VT, exp, W, H, shift=0):
     """first owned cell that is not visibly what `exp` says (rows shifted up by `shift` after a scroll)"""
     g = vt.owned()
-    for y in range(H - shift):
+    for y in range(len(g) - shift):
         for x in range(W):
             want = vis(exp.get((y + shift, x), (" ", VT.PLAIN)))
             got = vis(g[y][x]) if y < len(g) else None
@@ -951,7 +952,7 @@ def scratch_vt(case, js, done, top):
     _output_screen_diff(app, out, build_screen(js), Point(0, 0), app.color_depth, None, None, done, fs, afs, hs,
                         Size(rows=H, columns=W), 0)
     out.flush()
-    vt = VT(W, H, top)
+    vt = VT(W, H - top, top)
     vt.feed(buf.getvalue())
     return vt
 
@@ -960,8 +961,8 @@ def oracle(case):
     if not case.get("chain", True):
         return []
     W, H, fs = case["W"], case["H"], bool(case["fs"])
-    top = 0 if fs else case.get("top", 2)
-    vt = VT(W, H, top)
+    top = 0 if fs else case.get("top", 0)
+    vt = VT(W, H - top, top)
     v = []
     site = "_output_screen_diff"
 
@@ -988,7 +989,10 @@ def oracle(case):
         if vt.oob:
             bad("cursor moved past the top/left margin of the owned area", where)
             vt.oob = False
-        if any(c != vt.sentinel for y in range(vt.top) for c in vt.grid[y]):
+        legit_shift = 1 if (k in ("render", "diff") and op.get("done")
+                            and min(op["scr"]["h"], H) >= vt.H - vt.top) else 0
+        if any(c != vt.sentinel for y in range(max(0, vt.top - min(legit_shift, vt.scrolled - scrolled0)))
+               for c in vt.grid[y]):
             bad("rows above the origin changed", where)
         if k == "init":
             continue
@@ -1006,9 +1010,14 @@ def oracle(case):
         js, done = op["scr"], bool(op["done"])
         new_h = min(js["h"], H)
         bound = min(max(last_h, js["h"]), H)
+        # preconditions of the property (a layout never violates them; a shrunk replay might)
+        cx0, cy0 = js.get("cur") or [0, 0]
+        if js["h"] > vt.H - vt.top or not (cx0 < max(W, 1) and cy0 < max(1, js["h"])) or \
+                any(c[0] >= js["h"] for c in js["cells"]):
+            return v
         shift = vt.scrolled - scrolled0
         if done:
-            if shift != (1 if new_h == H else 0):
+            if shift != legit_shift:
                 bad("scrolled", f"{where}: done render scrolled {shift} lines, output height {new_h}")
         elif shift:
             bad("scrolled", f"{where}: scrolled {shift} lines")
@@ -1021,7 +1030,7 @@ def oracle(case):
         if d:
             bad("terminal does not show the screen",
                 f"{where}: cell (y={d[0]},x={d[1]}) want {d[2]} got {d[3]}; screen={js}")
-        sv = scratch_vt(case, js, done, top if not fs else 0)
+        sv = scratch_vt(case, js, done, vt.top)
         # compare with the from-scratch draw (same origin-relative coordinates)
         ga, gb = vt.owned(), sv.owned()
         diffc = None
@@ -1036,21 +1045,23 @@ def oracle(case):
             bad("incremental != from-scratch (cursor)",
                 f"{where}: cursor {(vt.row - vt.top, vt.col)} vs scratch {(sv.row - sv.top, sv.col)}")
         after_reset = done and case["kind"] != "diff"      # Renderer.reset() shows the cursor again
-        if vt.visible != sv.visible and not after_reset:
-            bad("incremental != from-scratch (cursor visibility)", where)
         if vt.sgr != VT.PLAIN:
             bad("attributes not reset after render", where)
         if vt.autowrap != (done or not fs):
             bad("autowrap state", f"{where}: autowrap={vt.autowrap}")
-        if vt.visible != (True if after_reset else bool(js["show"])):
-            bad("cursor visibility", f"{where}: visible={vt.visible} show_cursor={js['show']}")
         if done:
             if (vt.row - vt.top, vt.col) != (new_h - shift, 0):
                 bad("done: cursor not on the line below the output",
                     f"{where}: cursor {(vt.row - vt.top, vt.col)} output height {new_h}")
             vt.feed(rest)
-            vt.rebase()
+            if vt.visible != (True if after_reset else bool(js["show"])):
+                bad("cursor visibility", f"{where}: visible={vt.visible} after the done render")
+            vt = vt.fresh()             # the next prompt starts on a fresh terminal (modes are kept)
         else:
+            if vt.visible != sv.visible:
+                bad("incremental != from-scratch (cursor visibility)", where)
+            if vt.visible != bool(js["show"]):
+                bad("cursor visibility", f"{where}: visible={vt.visible} show_cursor={js['show']}")
             cx, cy = js.get("cur") or [0, 0]
             if (vt.row - vt.top, vt.col) != (cy, min(cx, W - 1)):
                 bad("cursor position", f"{where}: cursor {(vt.row - vt.top, vt.col)} want {(cy, min(cx, W - 1))}")
@@ -1064,8 +1075,10 @@ STYLES = [[2, "", "ansired", "0000000"], [3, "ansiblue", "", "1000000"], [4, "an
 GLYPHS = ["a", "b", "x", "y", "_"]
 
 
-def rand_screen(rng, W, H, rich=True):
-    h = rng.choice([0, 1, 1, 2, H, H, max(H - 1, 0), rng.randrange(0, H + 1)] + ([H + 1] if rich else []))
+def rand_screen(rng, W, H, rich=True, wild=False):
+    h = rng.choice([0, 1, 1, 2, H, H, max(H - 1, 0), rng.randrange(0, H + 1)] + ([H + 1] if wild else []))
+    if not wild:
+        h = min(h, H)
     cells, zwe = [], []
     for y in range(h):
         if rng.random() < 0.25:
@@ -1097,7 +1110,7 @@ def rand_screen(rng, W, H, rich=True):
             x += 1
     hh = max(1, min(h, H))
     cur = [rng.choice([0, max(W - 1, 0), rng.randrange(0, W)]), rng.randrange(0, hh)]
-    if rich and rng.random() < 0.05:
+    if wild and rng.random() < 0.1:
         cur[0] = W + rng.randrange(0, 2)
     return {"h": h, "cur": cur, "show": rng.randrange(2), "cells": cells, "zwe": zwe}
 
@@ -1133,15 +1146,19 @@ def rand_chain(rng, tier):
     fs = rng.randrange(2)
     depth = rng.choice([1, 4, 8, 24, 24])
     kind = rng.choice(["rend", "rend", "rend", "diff"])
-    case = {"kind": kind, "W": W, "H": H, "fs": fs, "depth": depth, "styles": STYLES, "chain": True, "ops": []}
+    top = 0 if fs else rng.choice([0, 0, 1, 2, H - 1])
+    top = max(0, min(top, H - 1))
+    case = {"kind": kind, "W": W, "H": H, "top": top, "fs": fs, "depth": depth, "styles": STYLES, "chain": True,
+            "ops": []}
+    avail = H - top
     n = rng.randrange(1, 9)
     prev = None
     fresh = True
     for _ in range(n):
         if prev is not None and rng.random() < 0.5:
-            js = mutate_screen(rng, prev, W, H)
+            js = mutate_screen(rng, prev, W, avail)
         else:
-            js = rand_screen(rng, W, H)
+            js = rand_screen(rng, W, avail)
         done = 1 if rng.random() < 0.12 else 0
         if kind == "diff":
             op = {"op": "diff", "scr": js, "done": done}
@@ -1160,7 +1177,10 @@ def rand_chain(rng, tier):
             elif not done and r < 0.09:
                 case["ops"].append({"op": "clear"})
                 prev = None
+                avail = H
         fresh = bool(done)
+        if done:
+            avail = H - top          # the next prompt starts on a fresh terminal with the origin at `top`
         prev = None if done else js
         if done and fs:
             break       # after leaving the alternate screen a new session starts
@@ -1175,7 +1195,7 @@ def rand_free(rng):
     case = {"kind": "diff", "W": W, "H": H, "fs": rng.randrange(2), "depth": rng.choice([1, 4, 8, 24]),
             "styles": STYLES, "chain": False, "nogrid": 1, "ops": []}
     for _ in range(rng.randrange(1, 5)):
-        op = {"op": "diff", "scr": rand_screen(rng, max(W, 1), max(H, 1)), "done": int(rng.random() < 0.2)}
+        op = {"op": "diff", "scr": rand_screen(rng, max(W, 1), max(H, 1), wild=True), "done": int(rng.random() < 0.2)}
         if rng.random() < 0.7:
             op["pos"] = [rng.randrange(0, W + 3), rng.randrange(0, H + 3)]
         if rng.random() < 0.7:
@@ -1205,7 +1225,7 @@ def rand_resize(rng):
         elif r < 0.36:
             case["ops"].append({"op": "clear"})
         else:
-            case["ops"].append({"op": "render", "scr": rand_screen(rng, W, H), "done": int(rng.random() < 0.15),
+            case["ops"].append({"op": "render", "scr": rand_screen(rng, W, H, wild=True), "done": int(rng.random() < 0.15),
                                 "mouse": rng.randrange(2), "key": rng.randrange(3), "shape": rng.randrange(4)})
     return case
 
